@@ -288,27 +288,45 @@ def registry_shape(tree: ast.Module) -> dict:
     srcs = [ast.unparse(s) for s in body]
     out["ttl_ok"] = "effective_ttl = self._default_ttl if ttl is None else ttl" in srcs and "expires_at = time.time() + effective_ttl" in srcs
     out["sid_ok"] = "session_id = secrets.token_bytes(_SESSION_ID_LEN)" in srcs
-    # get: ordered guards inside `with self._lock`
+    # get: ordered guards inside `with self._lock` (an expired entry is popped under the lock and closed after it)
     g = _func(tree, "get", "_SessionRegistry")
     steps: list[str] = []
     strict = None
-    for n in ast.walk(g):
+
+    def guard(st: ast.If) -> None:
+        nonlocal strict
+        t = ast.unparse(st.test)
+        body = [ast.unparse(b) for b in st.body]
+        rets_none = body[-1] == "return None"
+        if t == "entry is None" and rets_none:
+            steps.append("missing")
+        elif t in ("entry.expires_at < now", "entry.expires_at <= now"):
+            strict = t.endswith("< now")
+            evicts = "del self._entries[session_id]" in body
+            closes_inline = "self._close_state_suppressed(entry.state)" in body and rets_none
+            closes_after = "expired = entry" in body
+            steps.append("expired" if evicts and (closes_inline or closes_after) else "expired?")
+        elif t == "entry.principal_key != principal_key" and rets_none:
+            steps.append("principal")
+        else:
+            steps.append("?" + t)
+        for o in st.orelse:  # `elif` chains
+            if isinstance(o, ast.If):
+                guard(o)
+            else:
+                steps.append("?else:" + ast.unparse(o)[:40])
+
+    for n in g.body:
         if isinstance(n, ast.With):
             for st in n.body:
                 if isinstance(st, ast.If):
-                    t = ast.unparse(st.test)
-                    rets_none = ast.unparse(st.body[-1]) == "return None"
-                    if t == "entry is None" and rets_none:
-                        steps.append("missing")
-                    elif t in ("entry.expires_at < now", "entry.expires_at <= now") and rets_none:
-                        strict = t.endswith("< now")
-                        evicts = any(ast.unparse(b) == "del self._entries[session_id]" for b in st.body)
-                        closes = any(ast.unparse(b) == "self._close_state_suppressed(entry.state)" for b in st.body)
-                        steps.append("expired" if evicts and closes else "expired?")
-                    elif t == "entry.principal_key != principal_key" and rets_none:
-                        steps.append("principal")
-                    else:
-                        steps.append("?" + t)
+                    guard(st)
+    # the deferred close of the popped entry: `if expired is not None: self._close_entry(expired); return None`
+    deferred = [n for n in g.body if isinstance(n, ast.If) and ast.unparse(n.test) == "expired is not None"]
+    if any("expired = entry" in ast.unparse(n) for n in ast.walk(g) if isinstance(n, ast.Assign)):
+        ok = len(deferred) == 1 and [ast.unparse(b) for b in deferred[0].body] == ["self._close_entry(expired)", "return None"]
+        if not ok:
+            steps = [x + "?" if x == "expired" else x for x in steps]
     out["get_steps"] = steps
     if strict is None:
         raise Unrecognised("_SessionRegistry.get: expiry comparison not recognised")
@@ -317,6 +335,31 @@ def registry_shape(tree: ast.Module) -> dict:
     cmp = [ast.unparse(n) for n in ast.walk(d) if isinstance(n, ast.Compare) and "expires_at" in ast.unparse(n)]
     out["drain_cmp"] = cmp
     return out
+
+
+def lifecycle_shape(tree: ast.Module) -> dict:
+    """Lock / close-hook discipline around the end of a session (the sequential model only needs its shape)."""
+    cs = _func(tree, "_close_session", "_StickyMiddleware")
+    releases = any(isinstance(n, ast.Expr) and ast.unparse(n) == "entry.lock.release()" for n in ast.walk(cs))
+    try:
+        il = _func(tree, "is_live", "_SessionRegistry")
+        is_live_ok = ["return self._entries.get(session_id) is entry"] == [ast.unparse(x) for x in ast.walk(il) if isinstance(x, ast.Return)]
+    except Unrecognised:
+        is_live_ok = False
+    try:
+        ce = _func(tree, "_close_entry", "_SessionRegistry")
+        body = [x for x in ce.body if not (isinstance(x, ast.Expr) and isinstance(x.value, ast.Constant))]
+        once = (len(body) == 1 and isinstance(body[0], ast.With) and ast.unparse(body[0].items[0].context_expr) == "entry.lock"
+                and [ast.unparse(b) for b in body[0].body] == ["if entry.closed:\n    return", "entry.closed = True",
+                                                              "cls._close_state_suppressed(entry.state)"])
+    except Unrecognised:
+        once = False
+    ends = {}
+    for name in ("close", "drain_expired", "shutdown"):
+        f = _func(tree, name, "_SessionRegistry")
+        calls = [ast.unparse(n.func) for n in ast.walk(f) if isinstance(n, ast.Call)]
+        ends[name] = "self._close_entry" in calls or "self._close_state_suppressed" in calls
+    return {"close_session_releases_lock": releases, "is_live_ok": is_live_ok, "close_entry_once": once, "ends_close": all(ends.values())}
 
 
 def sink_shape(tree: ast.Module) -> dict:
@@ -359,6 +402,11 @@ def request_shape(tree: ast.Module) -> dict:
                 elif isinstance(st, ast.If) and ast.unparse(st.test) == "entry is None" \
                         and ast.unparse(st.body[0]).startswith("raise SessionLostError("):
                     steps.append("entry_none")
+                elif s == "entry.lock.acquire()":
+                    steps.append("lock_acquire")
+                elif isinstance(st, ast.If) and ast.unparse(st.test) == "not self._registry.is_live(session_id, entry)" \
+                        and [ast.unparse(b)[:27] for b in st.body] == ["entry.lock.release()", "raise SessionLostError('ses"]:
+                    steps.append("revalidate")
                 elif s in ("auth, _ = _get_auth_and_metadata()", "aad = _compute_aad(auth)"):
                     continue
                 else:
@@ -487,6 +535,7 @@ def emit() -> dict[str, str]:
     pk = pkey_shape(sticky)
     reg = registry_shape(sticky)
     sink = sink_shape(sticky)
+    life = lifecycle_shape(sticky)
     rq = request_shape(sticky)
     rs = response_shape(sticky)
     dl = delete_shape(sticky)
@@ -551,6 +600,15 @@ def expiryStrict : Bool := {lean_bool(reg["expiry_strict"])}
 /-- comparisons in `drain_expired` -/
 def drainCompares : List String := {lean_strs(reg["drain_cmp"])}
 
+/-- `_close_session` releases the per-session RLock itself (pinned tree) instead of leaving it to `process_response` -/
+def closeSessionReleasesLock : Bool := {lean_bool(life["close_session_releases_lock"])}
+/-- `is_live` is `self._entries.get(session_id) is entry` (used by the re-validation after the lock acquisition) -/
+def isLiveOk : Bool := {lean_bool(life["is_live_ok"])}
+/-- `_close_entry`: under the entry lock, `if entry.closed: return; entry.closed = True; state.close()` -/
+def closeEntryOnce : Bool := {lean_bool(life["close_entry_once"])}
+/-- `close`, `drain_expired`, `shutdown` all run the close hook of what they removed -/
+def endingPathsClose : Bool := {lean_bool(life["ends_close"])}
+
 /-! `_StickySink` -/
 def sinkOpenSetsMint : Bool := {lean_bool(sink["open_sets_mint"])}
 def sinkOpenResetsClosed : Bool := {lean_bool(sink["open_resets_closed"])}
@@ -597,6 +655,7 @@ end VgiVerif.Gen.Sticky
     for rel, items in [
         (STICKY, [("_seal_session_token", None), ("_open_session_token", None), ("open", "_SessionRegistry"), ("get", "_SessionRegistry"),
                   ("close", "_SessionRegistry"), ("drain_expired", "_SessionRegistry"), ("shutdown", "_SessionRegistry"),
+                  ("is_live", "_SessionRegistry"), ("_close_entry", "_SessionRegistry"),
                   ("open", "_StickySink"), ("close", "_StickySink"), ("_principal_key", "_StickyMiddleware"),
                   ("process_request", "_StickyMiddleware"), ("_open_session", "_StickyMiddleware"),
                   ("_close_session", "_StickyMiddleware"), ("process_response", "_StickyMiddleware"),
@@ -606,7 +665,10 @@ end VgiVerif.Gen.Sticky
     ]:
         t = _tree(rel)
         for name, cls in items:
-            fps.append((f"{rel}:{cls + '.' if cls else ''}{name}", fingerprint(_func(t, name, cls))))
+            try:
+                fps.append((f"{rel}:{cls + '.' if cls else ''}{name}", fingerprint(_func(t, name, cls))))
+            except Unrecognised:
+                fps.append((f"{rel}:{cls + '.' if cls else ''}{name}", "absent"))
     fp_body = "namespace VgiVerif.Gen.StickyFingerprint\n/-- normalised-AST fingerprints of the functions the Sticky model transliterates -/\n" \
         "def functions : List (String × String) := [\n" + ",\n".join(f'  ("{a}", "{b}")' for a, b in fps) + "\n]\nend VgiVerif.Gen.StickyFingerprint\n"
     return {"Sticky.lean": body, "StickyFingerprint.lean": fp_body}
